@@ -81,17 +81,33 @@ func verifDump(b *strings.Builder, v reflect.Value, depth int, seen map[uintptr]
 		// prints in full and which as <ref> must not depend on Go's map iteration order
 		// (the macros of a template refer to each other)
 		type entry struct {
-			key string
-			val reflect.Value
+			key, tie string
+			val      reflect.Value
 		}
 		entries := make([]entry, 0, v.Len())
 		iter := v.MapRange()
 		for iter.Next() {
 			var kb strings.Builder
 			verifDump(&kb, iter.Key(), depth+1, seen)
-			entries = append(entries, entry{kb.String(), iter.Value()})
+			entries = append(entries, entry{key: kb.String(), val: iter.Value()})
 		}
-		sort.Slice(entries, func(i, j int) bool { return entries[i].key < entries[j].key })
+		// keys can print alike (two literal nodes 'a' in the hash {'a': 1, 'a': 2}): such entries are ordered by what their
+		// value prints on its own
+		for i := range entries {
+			for j := range entries {
+				if i != j && entries[i].key == entries[j].key && entries[i].tie == "" {
+					var tb strings.Builder
+					verifDump(&tb, entries[i].val, depth+1, map[uintptr]bool{})
+					entries[i].tie = tb.String()
+				}
+			}
+		}
+		sort.Slice(entries, func(i, j int) bool {
+			if entries[i].key != entries[j].key {
+				return entries[i].key < entries[j].key
+			}
+			return entries[i].tie < entries[j].tie
+		})
 		parts := make([]string, 0, len(entries))
 		for _, e := range entries {
 			var vb strings.Builder
